@@ -16,6 +16,7 @@ EXPLANATION = (
     "independent parser and byte-identical round trip are not decided.")
 EXPLANATION += " Also decided: no branch of the parser depends on the contents an earlier member wrote into the output buffer (the seen-flags are the only state carried between members); json_unescape writes only table constants, verbatim input bytes or encode_utf8 output."
 EXPLANATION += " Also decided: the writer's separator flag is cleared after every member before it is tested again (no two members without a comma); the tag-letter bitmap is found by its use and must not share a variable with the member flags."
+EXPLANATION += ' Also decided: every path of parse_json_filter to Ok passes its own recognition of the closing brace; tag values reach the packed form only through json_unescape or under an evaluated scan admitting no backslash, quote or control character; the writer appends data (by any Vec method) only through json_escape or under such a scan.'
 ASSUMPTIONS = []
 
 WRITER_NAMES = {b'"ids":[', b'"authors":[', b'"kinds":[', b'"limit":', b'"since":', b'"until":', b'"#'}
@@ -43,9 +44,12 @@ def run(ctx):
     n = parsers.quote_state(ctx, s, parsers.FILTER_PARSER)
     ctx.floor("C07.calls-after-open-quote", n, 1)
     parsers.fallthrough_skips_member(ctx, s, parsers.FILTER_PARSER)
+    parsers.object_left_at_close_brace(ctx, s, parsers.FILTER_PARSER)
     parsers.skipper_first_set(ctx, s)
     parsers.literal_skippers_advance(ctx, s)
     escaping.unescape_writes(ctx, s)
+    escaping.surrogates_refused(ctx, s)
+    escaping.raw_input_copies(ctx, s, [parsers.FILTER_PARSER])
     escaping.utf8_width_table(ctx, s)
     emission_order(ctx, s, fn)
     no_decision_on_earlier_members(ctx, s, fn)
@@ -104,22 +108,44 @@ def tag_bitmap(ctx, s, fn):
     ors = cand[k]
     from ..srules import leaf_values
 
+    def pow2(n):
+        return isinstance(n, int) and n > 0 and n & (n - 1) == 0
+
     def one_hot(an_, v, depth=0):
-        """every value flowing into v is 1 << something (looking into closures and local functions that return it)"""
+        """True: every value flowing into v is a one-bit mask (1 << something, a power-of-two constant, an entry of a constant
+        table of such); False: some value is plain arithmetic on the input (an index, not a mask); None: not recognised"""
         leaves = leaf_values(an_, v)
         if not leaves:
-            return False
+            return None
+        verdict = True
         for l in leaves:
             while l[0] == "cast":
                 l = l[-1]
             if l[0] == "agg" and l[1].endswith(":None"):
                 continue
             if l[0] == "agg" and l[1].endswith(":Some"):
-                if not one_hot(an_, l[2][0], depth + 1):
+                r = one_hot(an_, l[2][0], depth + 1)
+                if r is False:
                     return False
+                if r is None:
+                    verdict = None
                 continue
+            if l[0] == "const":
+                if pow2(l[1]):
+                    continue
+                return False
             if l[0] == "bin" and l[1] == "Shl" and l[2][0] == "const" and l[2][1] == 1:
                 continue
+            if l[0] == "call" and l[1].rsplit("::", 1)[-1] in ("checked_shl", "wrapping_shl", "unbounded_shl", "pow", "checked_pow") and \
+                    l[2] and l[2][0][0] == "const" and l[2][0][1] in (1, 2):
+                continue        # 1.checked_shl(n) / 2.pow(n): Some(one bit) or None
+            if l[0] == "proj":
+                inner0 = l
+                while inner0[0] == "proj":
+                    inner0 = inner0[1]
+                if inner0[0] == "call" and inner0[1].rsplit("::", 1)[-1] in ("checked_shl", "checked_pow") and \
+                        inner0[2] and inner0[2][0][0] == "const" and inner0[2][0][1] in (1, 2):
+                    continue
             if l[0] == "proj" and depth < 3:
                 # payload of a value returned by a closure / local function
                 inner = l
@@ -135,32 +161,63 @@ def tag_bitmap(ctx, s, fn):
                 if cf is not None:
                     ca = ctx.E.an(cf)
                     rets = [v2 for n, kk, v2 in s.return_kinds(cf)]
-                    if rets and all(one_hot(ca, r, depth + 1) for r in rets):
+                    rs = [one_hot(ca, r, depth + 1) for r in rets]
+                    if rets and all(r is True for r in rs):
                         continue
-            return False
-        return True
+                    if any(r is False for r in rs):
+                        return False
+                    verdict = None
+                    continue
+            if l[0] == "bin" and l[1] in ("Add", "Sub", "AddUnchecked", "SubUnchecked") and \
+                    not contains_value(l, lambda y: y[0] == "bin" and y[1] in ("Shl", "ShlUnchecked")) and \
+                    not contains_value(l, lambda y: y[0] in ("call", "elem", "load", "proj", "phi")):
+                return False        # letter - 'a' (+ 26): the bit's index, not its mask
+            verdict = None
+        return verdict
     letter_bits_injective(ctx, s, fn)
     for b, i, v in ors:
         bit = v[3] if (v[2][0] == "phi" and v[2][2] == ("local", k)) or v[2] == ("local", k) else v[2]
         if contains_value(v[3], lambda y: y[0] == "phi" and y[2] == ("local", k)):
             bit = v[2]
+        acc = v[2] if bit is v[3] else v[3]
         mask_ok = one_hot(an, bit)
-        # duplicate test on the same value: (found_tags & bit) != bit, or (found_tags & bit) == 0, dominates the update
+        # duplicate test on the same value: (found_tags & bit) != bit, or (found_tags & bit) == 0, dominates the update;
+        # or the same bit looked at the other way round: (found_tags >> index) & 1 with bit = 1 << index
         tested = False
+        is_acc = lambda y: y[0] == "phi" and y[2] == ("local", k)
         for f in ctx.E.facts(fn, b):
-            if isinstance(f[1], tuple) and f[1] and f[1][0] == "bin" and f[1][1] == "BitAnd" and (f[1][3] == bit or f[1][2] == bit):
-                kv = f[2] if len(f) > 2 else None
-                kv = kv[1] if isinstance(kv, tuple) and kv and kv[0] == "const" else kv
+            t = f[1] if len(f) > 1 else None
+            if not (isinstance(t, tuple) and t):
+                continue
+            kv = f[2] if len(f) > 2 else None
+            kv = kv[1] if isinstance(kv, tuple) and kv and kv[0] == "const" else kv
+            if t[0] == "bin" and t[1] == "BitAnd" and (t[3] == bit or t[2] == bit):
                 if f[0] == "ne" and f[2] == bit:
                     tested = True
                 if f[0] in ("eq", "eqc") and kv == 0:
                     tested = True
-        ok = mask_ok and tested
+                continue
+            if t[0] == "bin" and t[1] == "BitAnd" and bit[0] == "bin" and bit[1] == "Shl":
+                sh = [x for x in (t[2], t[3]) if x[0] == "bin" and x[1] == "Shr" and is_acc(x[2])]
+                one = [x for x in (t[2], t[3]) if x[0] == "const" and x[1] == 1]
+                strip = lambda y: y[-1] if y[0] == "cast" else y
+                if sh and one and strip(sh[0][3]) == strip(bit[3]) and ((f[0] in ("eq", "eqc") and kv == 0) or (f[0] in ("ne", "nec") and kv == 1)):
+                    tested = True
+                    continue
+            if tested is False and contains_value(t, is_acc):
+                tested = None       # the bitmap is tested, in a form not recognised here
         sp = fn.blocks[b]["stmts"][i]["sp"]
-        s.add("S-ONEHOT", fn, "tag-letter-bitmap", "found_tags", sp, PROVED if ok else VIOLATION,
-              "the value OR-ed into (and tested against) found_tags is 1 << letter-index" if ok else
-              "the tag-letter bitmap is updated with something that is not a one-bit mask (mask=%s, same value tested=%s): "
-              "acceptance depends on which letters came earlier" % (mask_ok, tested), b)
+        if mask_ok is False or tested is False:
+            verdict = VIOLATION
+        elif mask_ok and tested:
+            verdict = PROVED
+        else:
+            verdict = UNDECIDED
+        s.add("S-ONEHOT", fn, "tag-letter-bitmap", "found_tags", sp, verdict,
+              "the value OR-ed into (and tested against) found_tags is 1 << letter-index" if verdict == PROVED else
+              ("the tag-letter bitmap is updated with something that is not a one-bit mask (mask=%s, same value tested=%s): "
+               "acceptance depends on which letters came earlier" % (mask_ok, tested)) if verdict == VIOLATION else
+              "how the mask is computed or tested was not recognised (mask=%s, tested=%s): not decided" % (mask_ok, tested), b)
 
 
 def letter_bits_injective(ctx, s, fn):
